@@ -89,6 +89,11 @@ impl Stepped {
     }
 }
 
+/// Encodes, for the yield point at the top of every turn of the accept_one loop: (number of handles << 16) | next.
+pub(crate) fn turn_state(a: &Accept) -> usize {
+    (a.handles.len() << 16) | (a.next & 0xffff)
+}
+
 /// Encodes, for the yield point after a counter increment: (availability bits of workers 0..15 << 16) |
 /// (number of handles << 1) | (1 if some handle in the rotation is currently marked unavailable).
 pub(crate) fn rotation_state(a: &Accept) -> usize {
